@@ -18,6 +18,8 @@ type deviceStatements struct {
 	getNonceStatement      *sql.Stmt
 	updateStateStatement   *sql.Stmt
 	advanceFCntUpStatement *sql.Stmt
+	getFCntDnStatement     *sql.Stmt
+	setFCntDnStatement     *sql.Stmt
 	deleteStatement        *sql.Stmt
 	updateStatement        *sql.Stmt
 }
@@ -31,6 +33,8 @@ func (d *deviceStatements) Close() {
 	d.getNonceStatement.Close()
 	d.updateStateStatement.Close()
 	d.advanceFCntUpStatement.Close()
+	d.getFCntDnStatement.Close()
+	d.setFCntDnStatement.Close()
 	d.deleteStatement.Close()
 	d.updateStatement.Close()
 }
@@ -156,6 +160,16 @@ func (d *deviceStatements) prepare(db *sql.DB) error {
 	advanceFCntUp := `UPDATE lora_devices SET fcnt_up = $1, key_warning = $2 WHERE eui = $3 AND fcnt_up <= $4`
 	if d.advanceFCntUpStatement, err = db.Prepare(advanceFCntUp); err != nil {
 		return fmt.Errorf("unable to prepare advance fcnt_up statement: %v", err)
+	}
+
+	getFCntDn := `SELECT fcnt_dn FROM lora_devices WHERE eui = $1`
+	if d.getFCntDnStatement, err = db.Prepare(getFCntDn); err != nil {
+		return fmt.Errorf("unable to prepare fcnt_dn select statement: %v", err)
+	}
+
+	setFCntDn := `UPDATE lora_devices SET fcnt_dn = $1 WHERE eui = $2`
+	if d.setFCntDnStatement, err = db.Prepare(setFCntDn); err != nil {
+		return fmt.Errorf("unable to prepare fcnt_dn update statement: %v", err)
 	}
 
 	delete := `DELETE FROM lora_devices WHERE eui = $1`
@@ -368,6 +382,34 @@ func (s *Storage) AdvanceFCntUp(eui protocol.EUI, fCnt uint16, keyWarning bool) 
 	return s.doSQLExec(s.devStmt.advanceFCntUpStatement, func(st *sql.Stmt) (sql.Result, error) {
 		return st.Exec(fCnt+1, keyWarning, eui.ToInt64(), fCnt)
 	})
+}
+
+// NextFCntDn returns the downlink frame counter to use for the next frame to
+// the device and moves the stored counter past it. The counter is stored
+// before it is returned so it won't be handed out twice.
+func (s *Storage) NextFCntDn(eui protocol.EUI) (uint16, error) {
+	s.mutex.Lock()
+	defer s.mutex.Unlock()
+	tx, err := s.db.Begin()
+	if err != nil {
+		return 0, err
+	}
+	var fCntDn uint16
+	if err := tx.Stmt(s.devStmt.getFCntDnStatement).QueryRow(eui.ToInt64()).Scan(&fCntDn); err != nil {
+		tx.Rollback()
+		if err == sql.ErrNoRows {
+			return 0, ErrNotFound
+		}
+		return 0, err
+	}
+	if _, err := tx.Stmt(s.devStmt.setFCntDnStatement).Exec(fCntDn+1, eui.ToInt64()); err != nil {
+		tx.Rollback()
+		return 0, err
+	}
+	if err := tx.Commit(); err != nil {
+		return 0, err
+	}
+	return fCntDn, nil
 }
 
 // DeleteDevice removes a device from the store
